@@ -10,10 +10,17 @@ func unitJobsC04(c *Check) {
 	if c.Tier == "thorough" {
 		N = 8
 	}
+	var proof []*interp.Job
 	for n := 0; n <= N; n++ {
-		c.ExploreNeed(&interp.Job{Entry: "H_Unit_GetLine", Tag: "unit-newlines", Params: map[string]interface{}{"n": n}}, "getline")
-		c.ExploreNeed(&interp.Job{Entry: "H_Unit_Append", Tag: "unit-newlines", Params: map[string]interface{}{"n": n}}, "append")
+		j1 := &interp.Job{Entry: "H_Unit_GetLine", Tag: "unit-newlines", Params: map[string]interface{}{"n": n}}
+		j2 := &interp.Job{Entry: "H_Unit_Append", Tag: "unit-newlines", Params: map[string]interface{}{"n": n}}
+		c.ExploreNeed(j1, "getline")
+		c.ExploreNeed(j2, "append")
+		if n <= 3 {
+			proof = append(proof, j1, j2)
+		}
 	}
+	c.CrossSolvers(proof)
 	c.Bounds = append(c.Bounds, bound("unit: NewLines.GetLine / Append on every strictly increasing table of 0..%d entries with unconstrained 64-bit entries and offset (GetLine = 1 + number of entries <= p, monotone; Append keeps the table sorted, complete and is idempotent)", N))
 }
 
@@ -25,13 +32,19 @@ func unitJobsC05(c *Check) {
 	}
 	forms := map[int][2]int{0: {listF, 1}, 1: {nodeF, 1}, 2: {1, 1}, 3: {1, 1}, 4: {1, nodeF}, 5: {nodeF, 1}, 6: {nodeF, nodeF},
 		7: {listF, 1}, 8: {1, listF}, 9: {nodeF, listF}, 10: {listF, nodeF}, 11: {listF, 1}}
+	var proof []*interp.Job
 	for w := 0; w < 12; w++ {
 		f := forms[w]
 		for a := 0; a < f[0]; a++ {
 			for b := 0; b < f[1]; b++ {
-				c.ExploreNeed(&interp.Job{Entry: "H_Unit_Builder", Tag: "unit-position-builder", Params: map[string]interface{}{"which": w, "fa": a, "fb": b}}, "combinator")
+				j := &interp.Job{Entry: "H_Unit_Builder", Tag: "unit-position-builder", Params: map[string]interface{}{"which": w, "fa": a, "fb": b}}
+				c.ExploreNeed(j, "combinator")
+				if a == f[0]-1 && b == f[1]-1 {
+					proof = append(proof, j)
+				}
 			}
 		}
 	}
+	c.CrossSolvers(proof)
 	c.Bounds = append(c.Bounds, bound("unit: the 12 New*Position combinators of internal/position with unconstrained 64-bit offsets and lines in every argument; node arguments nil / without position / with position; list arguments nil / empty / 1..%d elements (start from the first argument, end from the last, -1 for absent boundaries)", listF-2))
 }
